@@ -123,6 +123,12 @@ class Stats(object):
                 self.fault("interleave", 1)
         if obs.get("hang"):
             self.probe("hang", 1)
+        if obs.get("lines"):
+            ls = self.d.setdefault("lines", [])
+            have = set(tuple(x) for x in ls)
+            for x in obs["lines"]:
+                if tuple(x) not in have:
+                    ls.append(list(x))
 
     def fault(self, kind, n=1):
         self.d["faults"][kind] = self.d["faults"].get(kind, 0) + n
